@@ -812,6 +812,10 @@ def _dd_factory(vd, ctx):
 def _hashable_distinct(ks):
     out, seen = [], []
     for x in ks:
+        try:
+            hash(x)
+        except TypeError:
+            continue           # e.g. the list / dict values of an Any-typed key position
         if any(x == y and type(x) is type(y) for y in seen) or any(x == y for y in seen):
             continue
         seen.append(x)
